@@ -150,6 +150,7 @@ func (pr *prefixReader) ReadPrefixCodes(hl, hd *prefix.Decoder) {
 			default:
 				panicf(errors.Corrupted, "invalid code symbol: %d", clen)
 			}
+			clenLast = clen // A later repeater copies the previous code length
 
 			if clen > 0 {
 				for symEnd := sym + repCnt; sym < symEnd; sym++ {
